@@ -142,6 +142,20 @@ func drivers(tier string, race bool) []driver {
 		return []*roaring.Bitmap{roaring.New(), roaring.New()}
 	}, func(bs []*roaring.Bitmap) *roaring.Bitmap { return roaring.ParHeapOr(2, bs...) }, seqOr))
 	add("ParHeapOr(workers=2, 3 bitmaps)", b2, agg32(inputs3, func(bs []*roaring.Bitmap) *roaring.Bitmap { return roaring.ParHeapOr(2, bs...) }, seqOr))
+	// keys shared by more than two inputs: the worker folds containers[2:] of the recycled scratch slice, and the
+	// feeder refills a recycled slice with as many containers for a later key
+	shared4 := func() []*roaring.Bitmap {
+		return []*roaring.Bitmap{
+			bm(cat(at(0, 1), at(1, 11), at(2, 21), at(3, 31))...),
+			bm(cat(at(0, 2), at(1, 12), at(2, 22), at(3, 32))...),
+			bm(cat(at(0, 3), at(1, 13), at(2, 23), at(3, 33))...),
+			bm(cat(at(0, 4), at(1, 14), at(2, 24), at(3, 34))...),
+		}
+	}
+	for _, w := range []int{1, 2} {
+		w := w
+		add(fmt.Sprintf("ParHeapOr(workers=%d, 4 keys each shared by 4 bitmaps)", w), b2, agg32(shared4, func(bs []*roaring.Bitmap) *roaring.Bitmap { return roaring.ParHeapOr(w, bs...) }, seqOr))
+	}
 	// capacity drivers: more items than resultChan (32) / inputChan capacity; bound <= 1
 	many := func(n int, shared bool) func() []*roaring.Bitmap {
 		return func() []*roaring.Bitmap {
